@@ -25,6 +25,9 @@ CONFIGS = {
     "asan": dict(cc="clang", cflags=["-O1", "-g", "-fno-omit-frame-pointer", "-fsanitize=fuzzer-no-link,address,undefined",
                                      "-fno-sanitize-recover=undefined", "-fno-sanitize=alignment,shift-base,pointer-overflow,function",
                                      "-fno-strict-aliasing"], kind="static"),
+    # coverage-instrumented + ASan build for the libFuzzer phase of the runner (memory errors inside the library's own
+    # stack/global/heap objects become visible; no UBSan: undefined behaviour outside the 20 properties is not judged)
+    "fuzz": dict(cc="clang", cflags=["-O1", "-g", "-fno-omit-frame-pointer", "-fsanitize=fuzzer-no-link,address", "-fno-strict-aliasing"], kind="static"),
     "shared": dict(cc="gcc", cflags=["-O1", "-g", "-fPIC", "-fno-strict-aliasing", "-fno-delete-null-pointer-checks", "-fno-lifetime-dse"], kind="shared"),
     "tsan": dict(cc="clang", cflags=["-O1", "-g", "-fsanitize=thread", "-fno-strict-aliasing"], kind="static"),
 }
